@@ -120,6 +120,13 @@ impl Sim {
 		}
 		self.raised = v.raised;
 	}
+	pub fn midchain(&mut self, rep: &mut Report) {
+		let mut v = Verdicts { rep, run_label: &self.label, raised: std::mem::take(&mut self.raised) };
+		for m in self.mons.iter_mut() {
+			m.on_midchain(&self.w, &mut v);
+		}
+		self.raised = v.raised;
+	}
 	pub fn end(&mut self, rep: &mut Report) {
 		let mut v = Verdicts { rep, run_label: &self.label, raised: std::mem::take(&mut self.raised) };
 		for m in self.mons.iter_mut() {
